@@ -22,6 +22,90 @@ static ArithUint256 u256_of_hex(const std::string& s) {
 }
 static std::string num(const ArithUint256& a) { return vh::hexnum_le(a.data(), a.size()); }
 
+// ---------------------------------------------------------------------------
+// C port of the PROVED compact specification (coq/Arith/CompactSpec.v
+// fromBits_spec, coq/Arith/CompactDefs.v toBits) on an independent 4x64-bit
+// representation. Trusted glue: validated against the extracted Coq model on
+// every pfrombits/ptobits case of the quick stream; used for the 2^32 sweep.
+// ---------------------------------------------------------------------------
+struct W256 {
+  uint64_t w[4];
+};
+static W256 w_zero() { return W256{{0, 0, 0, 0}}; }
+static W256 w_shl(const W256& a, unsigned k) {  // a * 2^k mod 2^256
+  W256 r = w_zero();
+  if (k >= 256) return r;
+  unsigned q = k / 64, s = k % 64;
+  for (int i = 3; i >= 0; i--) {
+    if (i < (int)q) break;
+    uint64_t v = a.w[i - q] << s;
+    if (s != 0 && i - (int)q - 1 >= 0) v |= a.w[i - q - 1] >> (64 - s);
+    r.w[i] = v;
+  }
+  return r;
+}
+static W256 w_shr(const W256& a, unsigned k) {  // a / 2^k
+  W256 r = w_zero();
+  if (k >= 256) return r;
+  unsigned q = k / 64, s = k % 64;
+  for (unsigned i = 0; i + q < 4; i++) {
+    uint64_t v = a.w[i + q] >> s;
+    if (s != 0 && i + q + 1 < 4) v |= a.w[i + q + 1] << (64 - s);
+    r.w[i] = v;
+  }
+  return r;
+}
+static unsigned w_bits(const W256& a) {
+  for (int i = 3; i >= 0; i--)
+    if (a.w[i] != 0) return 64 * i + (64 - __builtin_clzll(a.w[i]));
+  return 0;
+}
+static bool w_eq_impl(const W256& a, const ArithUint256& b) {
+  for (int i = 0; i < 32; i++)
+    if ((uint8_t)(a.w[i / 8] >> (8 * (i % 8))) != b.data()[i]) return false;
+  return true;
+}
+static std::string w_num(const W256& a) {
+  uint8_t le[32];
+  for (int i = 0; i < 32; i++) le[i] = (uint8_t)(a.w[i / 8] >> (8 * (i % 8)));
+  return vh::hexnum_le(le, 32);
+}
+static W256 w_of_hex(const std::string& s) {
+  std::string p = std::string(64 - s.size(), '0') + s;
+  auto be = vh::unhex(p);
+  W256 r = w_zero();
+  for (int i = 0; i < 32; i++) r.w[i / 8] |= (uint64_t)be[31 - i] << (8 * (i % 8));
+  return r;
+}
+// fromBits_spec: c = s*2^24 + sg*2^23 + m
+static void port_frombits(uint32_t c, W256& t, bool& neg, bool& ovf) {
+  unsigned s = c >> 24, sg = (c >> 23) & 1;
+  uint32_t m = c & 0x7fffffu;
+  uint32_t w = s <= 3 ? (m >> (8 * (3 - s))) : m;
+  W256 mm = W256{{m, 0, 0, 0}};
+  t = s <= 3 ? W256{{w, 0, 0, 0}} : w_shl(mm, 8 * (s - 3));
+  neg = (w != 0) && sg == 1;
+  // 2^256 <= m * 2^(8(s-3))  <=>  bitlength(m) + 8(s-3) > 256   (m > 0)
+  ovf = (w != 0) && s > 3 && (w_bits(mm) + 8 * (s - 3) > 256);
+}
+// toBits of CompactDefs.v on the value
+static uint32_t port_tobits(const W256& v, bool negative) {
+  unsigned nSize = (w_bits(v) + 7) / 8;
+  uint32_t nCompact;
+  if (nSize <= 3) {
+    nCompact = (uint32_t)((uint64_t)(uint32_t)v.w[0] << (8 * (3 - nSize)));
+  } else {
+    nCompact = (uint32_t)w_shr(v, 8 * (nSize - 3)).w[0];
+  }
+  if (nCompact & 0x00800000u) {
+    nCompact >>= 8;
+    nSize++;
+  }
+  nCompact |= nSize << 24;
+  if (negative && (nCompact & 0x007fffffu)) nCompact |= 0x00800000u;
+  return nCompact;
+}
+
 static std::string str_of(const std::string& hexarg) {
   auto v = vh::unhex(hexarg);
   return std::string(v.begin(), v.end());
@@ -78,6 +162,35 @@ static std::string handle(const std::string& id, const std::string& op, const st
   if (op == "bits") return vh::hexnum(u256_of_hex(a[0]).bits());
   if (op == "low64") return vh::hexnum(u256_of_hex(a[0]).getLow64());
   if (op == "ofu64") return num(ArithUint256((uint64_t)vh::parse_hex64(a[0])));
+  if (op == "pfrombits") {
+    W256 t;
+    bool neg, ovf;
+    port_frombits((uint32_t)vh::parse_hex64(a[0]), t, neg, ovf);
+    return w_num(t) + " " + (neg ? "1" : "0") + " " + (ovf ? "1" : "0");
+  }
+  if (op == "ptobits") return vh::hexnum(port_tobits(w_of_hex(a[0]), a[1] == "1"));
+  if (op == "sweep") {
+    // every compact value in [lo, hi): library vs the C port of the proved spec
+    uint64_t lo = vh::parse_hex64(a[0]), hi = vh::parse_hex64(a[1]);
+    uint64_t n = 0;
+    for (uint64_t cc = lo; cc < hi; cc++) {
+      uint32_t c = (uint32_t)cc;
+      bool neg = false, ovf = false, pneg, povf;
+      ArithUint256 t = ArithUint256::fromBits(c, &neg, &ovf);
+      W256 pt;
+      port_frombits(c, pt, pneg, povf);
+      if (neg != pneg || ovf != povf || !w_eq_impl(pt, t)) return "SWEEP-MISMATCH " + vh::hexnum(c) + " fromBits";
+      uint32_t e0 = t.toBits(false), e1 = t.toBits(true);
+      if (e0 != port_tobits(pt, false) || e1 != port_tobits(pt, true))
+        return "SWEEP-MISMATCH " + vh::hexnum(c) + " toBits(fromBits(c))";
+      // canonical positive values re-encode to themselves (theorem C18_compact_roundtrip)
+      uint32_t s = c >> 24, m = c & 0xffffffu;
+      if (s >= 3 && s <= 33 && m >= 0x8000 && m < 0x800000 && (m < 0x10000 || s <= 32) && e0 != c)
+        return "SWEEP-MISMATCH " + vh::hexnum(c) + " canonical round trip";
+      n++;
+    }
+    return "SWEEP-OK " + vh::hexnum(n);
+  }
   // ---- text codecs ----
   if (op == "hexstr") {
     auto b = vh::unhex(a[0]);
